@@ -18,9 +18,10 @@ class StaticPlanning(Planning):
     """Mirrors SHADOWPlanning.generate_plan's output shape: every task carries a
     planned machine id and planned est/eft from a deterministic list schedule."""
 
-    def __init__(self, algorithm="static", delay_model=None, seed=0, assign=None):
+    def __init__(self, algorithm="static", delay_model=None, seed=0, assign=None, sort_by_est=True):
         super().__init__(algorithm, delay_model)
         self.seed = seed
+        self.sort_by_est = sort_by_est   # False: the plan lists its tasks in topological, not est, order
         self.assign = assign        # optional {obsname: {node: machine_id}}
         self.recorded = {}          # task id -> planned machine id
 
@@ -74,7 +75,8 @@ class StaticPlanning(Planning):
             tasks.append(t)
             self.recorded[tid] = mid
         new_graph = nx.relabel_nodes(graph, mapping)
-        tasks.sort(key=lambda x: x.est)
+        if self.sort_by_est:
+            tasks.sort(key=lambda x: x.est)
         exec_order = [t.id for t in tasks]
         est = self._calc_workflow_est(observation, buffer)
         eft = max([0] + list(eft_of.values()))
